@@ -4,6 +4,7 @@ CONSTANTS
   Ids = {1}
   Limit = 3
   W = 2
+  OptLists <- OL_None
   Slack = 2
   Ns = {0, 1, 2, 3, 4}
   Jumps = {1, 3, 5}
@@ -14,5 +15,9 @@ CONSTANTS
   BugIncrBeforeReset = FALSE
   BugAllowOneMore = FALSE
   BugNoZeroOnReset = FALSE
+  BugVerdictFromDefault = FALSE
+  BugRemainingFromDefault = FALSE
+  BugWindowFromDefault = FALSE
+  BugFirstOptionWins = FALSE
 INVARIANTS Emit
 CHECK_DEADLOCK FALSE
